@@ -26,7 +26,7 @@ func init() {
 		ID:    "C02",
 		Level: "model_checking",
 		Rule: "configuration = engine {On, DetectionOnly, Off} x optional phase-1 ctl:ruleEngine switch x first disruptive rule (deny / deny+status / drop / redirect / block via SecDefaultAction) in phase {none,1..4} x a later second disruptive rule x body-limit action {Reject, ProcessPartial} with 4-byte limits; " +
-			"every phase carries a counter rule before and after the disruptive rules. Breadth-first search over all sequences of 14 Transaction API calls up to the depth bound; a state is a call history replayed on a fresh transaction, deduplicated by a canonical key of all public observations (counters, interruption, last phase, buffered lengths, matched rules, full variable dump); " +
+			"every phase carries a counter rule before and after the disruptive rules. Breadth-first search over all sequences of 15 Transaction API calls (ProcessResponseHeaders with a final and with an informational status) up to the depth bound; a state is a call history replayed on a fresh transaction, deduplicated by a canonical key of all public observations (counters, interruption, last phase, buffered lengths, matched rules, full variable dump); " +
 			"invariants of the property are evaluated on every transition.",
 		Assumptions: []string{
 			"state key = interruption, last phase, engine-off flag, buffered lengths, matched rules, body-access flags, the whole TX collection and every variable the 14 calls of the alphabet can write; two histories with equal keys are assumed to have equal futures (the key is deliberately finer than the guards of transaction.go need)",
@@ -54,7 +54,7 @@ type kase struct {
 }
 
 var opNames = []string{"ProcessConnection", "ProcessURI", "AddRequestHeader", "ProcessRequestHeaders", "WriteRequestBody(2)", "WriteRequestBody(5)", "ReadRequestBodyFrom(3)", "ProcessRequestBody",
-	"AddResponseHeader", "ProcessResponseHeaders", "WriteResponseBody(2)", "WriteResponseBody(5)", "ProcessResponseBody", "ProcessLogging"}
+	"AddResponseHeader", "ProcessResponseHeaders", "WriteResponseBody(2)", "WriteResponseBody(5)", "ProcessResponseBody", "ProcessLogging", "ProcessResponseHeaders(103)"}
 
 const (
 	opPC = iota
@@ -71,6 +71,7 @@ const (
 	opWR5
 	opP4
 	opP5
+	opP3i // ProcessResponseHeaders with an informational status
 )
 
 func (c cfg) conf() string {
@@ -229,6 +230,8 @@ func apply(tx types.Transaction, op int) (ret string, isPhase bool) {
 		return r(it, err), true
 	case opP5:
 		tx.ProcessLogging()
+	case opP3i:
+		return r(tx.ProcessResponseHeaders(103, "HTTP/1.1"), nil), true
 	}
 	return "", false
 }
@@ -384,7 +387,7 @@ func configs(thorough bool, emit func(c cfg)) {
 			if ctl == e || (e == "Off" && ctl != "") {
 				continue
 			}
-			if !thorough && ctl == "Off" {
+			if !thorough && ctl == "Off" && e != "On" {
 				continue
 			}
 			for _, lim := range []string{"Reject", "ProcessPartial"} {
